@@ -169,8 +169,10 @@ def target_spec(draw, g, allow_all=True, p_all=0.5):
     classes = g["classes"]
     if allow_all and draw(st.floats(0, 1)) < p_all:
         return {"mode": "all"}
-    sub = draw(st.lists(st.sampled_from([c for c in classes if not c.startswith("_:")] or classes),
-                        min_size=1, max_size=len(classes), unique=True))
+    named = [c for c in classes if not c.startswith("_:")]
+    if not named:
+        return {"mode": "all"}       # a blank-node class cannot be named in target_classes
+    sub = draw(st.lists(st.sampled_from(named), min_size=1, max_size=len(named), unique=True))
     return {"mode": "classes", "classes": sub}
 
 
